@@ -182,10 +182,10 @@ def run(M, rec, tier, seed, k, n):
     netmon.set_recorder(rec)
     netmon._STATE["prop9"] = PROP
     netmon.install_transitions(M)
-    maxlen = 6 if tier == "quick" else 7
+    maxlen = 6 if tier == "quick" else 8
     rec.extra["path_shapes_exhaustive_up_to_length"] = maxlen
     path_shapes(M, rec, rng, maxlen, k, n)
-    histories(M, rec, rng, 600 if tier == "quick" else 3000)
+    histories(M, rec, rng, 600 if tier == "quick" else 12000)
     if k == 0:
         from vf import workloads as W
 
